@@ -27,7 +27,7 @@ LADDER = {
               (3, 2, ["call"], MENU_RE), (4, 1, ["call", "yielded"], MENU_FL), (3, 2, ["call"], MENU_FL)],
     "thorough": [(6, 0, ["call", "yielded"]), (5, 0, CONVS_ALL), (4, 1, ["call", "av"]), (3, 2, ["call"]), (2, 3, ["call"]),
                  (4, 2, ["call"], MENU_RE), (3, 3, ["call"], MENU_RE),
-                 (5, 1, ["call", "yielded"], MENU_FL), (4, 2, ["call"], MENU_FL), (3, 3, ["call"], MENU_FL)],
+                 (5, 1, ["call", "yielded"], MENU_FL), (4, 2, ["call"], MENU_FL)],
 }
 
 
